@@ -123,6 +123,92 @@ impl FieldParameters<u128> for FP128 {
     const LOG2_RADIX: usize = 128;
 }
 
+/// FP8: the generic single-word arithmetic instantiated at an 8-bit word (verification hook).
+#[cfg(feature = "verif-hooks")]
+pub(crate) struct FP8;
+
+#[cfg(feature = "verif-hooks")]
+impl_field_ops_single_word!(FP8, u8, u16);
+
+#[cfg(feature = "verif-hooks")]
+impl FieldParameters<u8> for FP8 {
+    const PRIME: u8 = 251;
+    const MU: u8 = 205;
+    const R2: u8 = 25;
+    const G: u8 = 246;
+    const NUM_ROOTS: usize = 1;
+    const BIT_MASK: u8 = 255;
+    const ROOTS: [u8; MAX_ROOTS + 1] = [
+        5, 246, 0, 0, 0, 0, 0, 0, 0, 0, 0, 0, 0, 0, 0, 0, 0, 0, 0, 0, 0,
+    ];
+    const HALF: u8 = 128;
+    #[cfg(test)]
+    const LOG2_BASE: usize = 8;
+    #[cfg(test)]
+    const LOG2_RADIX: usize = 8;
+}
+
+/// FP16S: the generic split-word arithmetic instantiated at a 16-bit word (verification hook).
+#[cfg(feature = "verif-hooks")]
+pub(crate) struct FP16S;
+
+#[cfg(feature = "verif-hooks")]
+impl_field_ops_split_word!(FP16S, u16, u8);
+
+#[cfg(feature = "verif-hooks")]
+impl FieldParameters<u16> for FP16S {
+    const PRIME: u16 = 65269;
+    const MU: u16 = 163;
+    const R2: u16 = 6020;
+    const G: u16 = 13186;
+    const NUM_ROOTS: usize = 2;
+    const BIT_MASK: u16 = 65535;
+    const ROOTS: [u16; MAX_ROOTS + 1] = [
+        267, 65002, 13186, 0, 0, 0, 0, 0, 0, 0, 0, 0, 0, 0, 0, 0, 0, 0, 0, 0, 0,
+    ];
+    const HALF: u16 = 32768;
+    #[cfg(test)]
+    const LOG2_BASE: usize = 8;
+    #[cfg(test)]
+    const LOG2_RADIX: usize = 16;
+}
+
+/// Verification hook: raw access to the generic limb arithmetic of every parameter set.
+#[cfg(feature = "verif-hooks")]
+pub(crate) fn verif_fp_op(field: &str, op: &str, x: u128, y: u128) -> Option<u128> {
+    fn go<T: FieldOps<W>, W: ops::Word + TryFrom<u128> + Into<u128>>(
+        op: &str,
+        x: u128,
+        y: u128,
+    ) -> Option<u128> {
+        let x = W::try_from(x).ok()?;
+        let y = W::try_from(y).ok()?;
+        Some(
+            match op {
+                "add" => T::add(x, y),
+                "sub" => T::sub(x, y),
+                "mul" => T::mul(x, y),
+                "neg" => T::neg(x),
+                "modp" => T::modp(x),
+                "pow" => T::pow(x, y),
+                "inv" => T::inv(x),
+                "montgomery" => T::montgomery(x),
+                "residue" => T::residue(x),
+                _ => return None,
+            }
+            .into(),
+        )
+    }
+    match field {
+        "FP8" => go::<FP8, u8>(op, x, y),
+        "FP16S" => go::<FP16S, u16>(op, x, y),
+        "FP32" => go::<FP32, u32>(op, x, y),
+        "FP64" => go::<FP64, u64>(op, x, y),
+        "FP128" => go::<FP128, u128>(op, x, y),
+        _ => None,
+    }
+}
+
 /// Compute the ceiling of the base-2 logarithm of `x`.
 pub(crate) fn log2(x: u128) -> u128 {
     let y = (127 - x.leading_zeros()) as u128;
